@@ -965,6 +965,15 @@ class Crystal(object):
                     super[1, 2] = -int(u)
                     modified = True
 
+        if not modified and self.dim > 2:
+            # pairwise reduction can stall when the ratios are exactly +-1/2 (hexagonal cells): the last
+            # vector may still be shortened by adding / subtracting *both* of the others
+            for s0, s1 in ((1, 1), (1, -1), (-1, 1), (-1, -1)):
+                v = self.lattice[:, 2] + s0 * self.lattice[:, 0] + s1 * self.lattice[:, 1]
+                if np.dot(v, v) < asq[2, 2] * (1 - 1e-8):
+                    super[0, 2], super[1, 2] = s0, s1
+                    modified = True
+                    break
         if not modified:
             return
         self.lattice = np.dot(self.lattice, super)
